@@ -611,3 +611,73 @@ def witness_falsy_next():
                 detail.setdefault(name, []).append(f"{c.klass}.{c.method} yielded {yields!r}")
     return dict(inputs={"scenario": "next-frame-with-falsy-data"}, cases=failing, detail=detail,
                 failed=["yields-the-data-of-each-next-frame"] if failing else [])
+
+
+# ------------------------------------------------------------------------------------------ OpenTelemetry dispatcher
+REYIELD = SpecMap("reyield", lambda v: F.event_term("yield", SV(v)))
+
+
+class ExecuteWsDispatch(Contract):
+    """`the OpenTelemetry variant behaves identically`: AsyncBaseClientOpenTelemetry.execute_ws hands the call, with the
+    same arguments, to exactly one of the two iterators proved above (with the tracer: the instrumented twin) and
+    re-yields every item in order."""
+    props = ("C13",)
+    target = f"{OTEL.__name__}:AsyncBaseClientOpenTelemetry.execute_ws"
+    trusted = TRUSTED
+    use_at_calls = False
+    frame_args = False
+
+    def setup(self, E):
+        from pyvc.interp import ModelMethod
+        items = E.sym("items", ListOf(Any, name="generator_items"))
+        tracer = Obj(F.FakeTracer, {}) if E.fork("tracer") else None
+        E.p.tracer_on = tracer is not None
+        self_ = Obj(OTEL.AsyncBaseClientOpenTelemetry, {"tracer": tracer})
+
+        def stub(name):
+            def call(I, o, a, k):
+                kw = dict(k)
+                splat = kw.pop("__splat__", None)
+                from pyvc.val import MDict
+                m = MDict(V.lower(splat)) if splat is not None else MDict(V.lower({}))
+                for key, v in kw.items():
+                    m.t = V.VDict(V.d_set(V.vd(m.t), V.lower(key), V.lower(v)))
+                I.p.effect("call", (name, len(a), SV(m.t)))
+                return Obj(F.TracedSource, {"xs": V.vl(items.t), "events": lambda r: REYIELD(r),
+                                            "events_step": lambda x, r: V.VCons(F.event_term("yield", SV(x)), REYIELD(r))})
+            return ModelMethod(self_, call, name)
+        self_.attrs["_execute_ws"] = stub("_execute_ws")
+        self_.attrs["_execute_ws_with_telemetry"] = stub("_execute_ws_with_telemetry")
+        kwargs = E.sym("kwargs", KWARGS)
+        E.assume(z3.And(*[z3.Not(has(kwargs.t, k)) for k in ("query", "operation_name", "variables")]))
+        return [self_], dict(query=E.sym("query", Str), operation_name=E.sym("operation_name", Opt(Str)),
+                             variables=E.sym("variables", Opt(L.VARIABLES)), __splat__=kwargs)
+
+    def ensures(self, A, res):
+        path = A["__path__"]
+        calls = [p for k, p in A["__effects__"] if k == "call"]
+        kw = A["kwargs"] if "kwargs" in A else z3.Const("kwargs", V.Val)
+        items = A["items"] if "items" in A else z3.Const("items", V.Val)
+        out = {"exactly-one-iterator-started": z3.BoolVal(len(calls) == 1)}
+        if len(calls) == 1:
+            name, npos, sent = calls[0]
+            sent = V.lower(sent)
+            want = "_execute_ws_with_telemetry" if getattr(path, "tracer_on", A.get("tracer_on")) else "_execute_ws"
+            other = z3.Const("other_key", V.Val)
+            out["instrumented-twin-iff-tracer"] = z3.BoolVal(name == want and npos == 0)
+            out["same-arguments"] = z3.And(get(sent, "query") == A.query, get(sent, "operation_name") == A.operation_name,
+                                           get(sent, "variables") == A.variables,
+                                           z3.Implies(z3.And(*[other != S(k) for k in ("query", "operation_name", "variables")]),
+                                                      z3.And(has(sent, other) == has(kw, other), get(sent, other) == get(kw, other))))
+        out["re-yields-every-item-in-order"] = F.trace_term(A["__effects__"], kinds=("yield",)) == REYIELD(V.vl(items))
+        return out
+
+    def on_raise(self, A, exc_cls, exc):
+        return {"adds-no-exception-of-its-own": z3.BoolVal(False)}
+
+    def replay_custom(self, inputs):
+        return dict(inputs={k: str(v)[:200] for k, v in inputs.items()}, failed=[], undetermined=["no native replay for the dispatcher"],
+                    pre_ok=True, outcome=None, error=None)
+
+
+CONTRACTS = CONTRACTS + [ExecuteWsDispatch()]
